@@ -210,6 +210,97 @@ theorem C13_create_idempotent (resolve : M κ σ → M κ σ → κ) (b : Builde
     congr 1
     exact M.set_same _ _ _ (M.get_set_self _ _ _)
 
+/-- `create()` does not consume the pending overrides (nor the chosen language): they are merged again
+at every later `create()` of the same builder. -/
+theorem C13_create_keeps_overrides (resolve : M κ σ → M κ σ → κ) (b : Builder κ σ) :
+    (b.create resolve).overrides = b.overrides ∧ (b.create resolve).lang = b.lang := ⟨rfl, rfl⟩
+
+/-- Files added later (between two `create()` calls, in any call grouping) do not touch the overrides
+either: an override set once is still pending, unless the same key is set again. -/
+theorem C13_files_keep_overrides (valid : κ → Bool) (d : κ) (b b' : Builder κ σ) (ops : List (Op κ σ))
+    (hf : ∀ op ∈ ops, op.isFile = true) (h : Builder.run valid d b ops = .ok b') :
+    b'.overrides = b.overrides ∧ b'.lang = b.lang := by
+  rw [run_closed] at h
+  have ho : ∀ (ops : List (Op κ σ)) (o : M κ σ), (∀ op ∈ ops, op.isFile = true) → ovrOf o ops = o := by
+    intro ops
+    induction ops with
+    | nil => intro o _; rfl
+    | cons op ops ih =>
+      intro o hf
+      have h1 := hf op List.mem_cons_self
+      cases op with
+      | addFile doc => simpa [ovrOf] using ih o (fun x hx => hf x (List.mem_cons_of_mem _ hx))
+      | setOverride k v => simp [Op.isFile] at h1
+      | setLanguage l => simp [Op.isFile] at h1
+  have hl : ∀ (ops : List (Op κ σ)) (l : Option κ), (∀ op ∈ ops, op.isFile = true) → langOf d l ops = l := by
+    intro ops
+    induction ops with
+    | nil => intro l _; rfl
+    | cons op ops ih =>
+      intro l hf
+      have h1 := hf op List.mem_cons_self
+      cases op with
+      | addFile doc => simpa [langOf] using ih l (fun x hx => hf x (List.mem_cons_of_mem _ hx))
+      | setOverride k v => simp [Op.isFile] at h1
+      | setLanguage l => simp [Op.isFile] at h1
+  cases hc : cfgOf valid b.config ops with
+  | error e => simp [hc] at h
+  | ok c =>
+    simp only [hc, Except.ok.injEq] at h
+    subst h
+    exact ⟨ho ops _ hf, hl ops _ hf⟩
+
+/-- **Explicit API value over configuration file, at every `create()`**: whatever happened to the builder
+before (earlier `create()`s, files added since), an explicit leaf of the pending overrides is the effective
+value of the target language's section in the configuration `create()` hands out. -/
+theorem C13_create_explicit_override_wins (resolve : M κ σ → M κ σ → κ) (b : Builder κ σ) (l : κ)
+    (p : List κ) (v : V κ σ) (hl : b.lang = some l) (hw : b.overrides.WF) (hp : p ≠ [])
+    (h : (V.map b.overrides).getPath p = some v) (hv : v.isExplicitLeaf = true) :
+    (V.map (b.create resolve).config).getPath (l :: p) = some v := by
+  obtain ⟨c, o, lang⟩ := b
+  simp only at hl hw h
+  subst hl
+  simp only [Builder.create, getPath_map_cons, M.get_set_self, Option.bind_some]
+  cases hc : c.get l with
+  | none =>
+    simpa [deepUpdate] using C13_explicit_wins p .nil o v hw hp h hv
+  | some sv =>
+    cases sv with
+    | map sm => simpa [deepUpdate] using C13_explicit_wins p sm o v hw hp h hv
+    | scalar x => simpa [deepUpdate] using h
+    | dflt x => simpa [deepUpdate] using h
+    | list x => simpa [deepUpdate] using h
+
+/-- **One call with several files = one call per file**:
+`add_config_files(f₁ … fₙ, g₁ … gₘ)` is `add_config_files(f₁ … fₙ)` followed by `add_config_files(g₁ … gₘ)`
+(same configuration, same error). -/
+theorem C13_add_config_files_call_split (valid : κ → Bool) (c : M κ σ) (ds₁ ds₂ : List (V κ σ)) :
+    addFilesCall valid c (ds₁ ++ ds₂) =
+      match addFilesCall valid c ds₁ with
+      | .ok c' => addFilesCall valid c' ds₂
+      | .error e => .error e := by
+  induction ds₁ generalizing c with
+  | nil => rfl
+  | cons d ds ih =>
+    simp only [List.cons_append, addFilesCall]
+    cases update valid c d with
+    | error e => rfl
+    | ok c' => exact ih c'
+
+/-- … and the builder state machine treats a call with several files as that many `addFile` steps. -/
+theorem C13_add_config_files_is_fold (valid : κ → Bool) (d : κ) (b : Builder κ σ) (docs : List (V κ σ)) :
+    Builder.run valid d b (docs.map Op.addFile) =
+      match addFilesCall valid b.config docs with
+      | .ok c => .ok { b with config := c }
+      | .error e => .error e := by
+  induction docs generalizing b with
+  | nil => rfl
+  | cons doc docs ih =>
+    simp only [List.map_cons, Builder.run, Builder.apply, addFilesCall]
+    cases update valid b.config doc with
+    | error e => rfl
+    | ok c' => simpa using ih { b with config := c' }
+
 /-! ## T5 the C++ language-standard shorthands -/
 
 /-- When `std` names a group of `defaults`, every key of the group gets the group's value (the group is
@@ -451,6 +542,13 @@ example : Builder.run (fun _ => true) 0 (⟨.nil, .nil, none⟩ : Builder Nat Na
     = Builder.run (fun _ => true) 0 ⟨.nil, .nil, none⟩
       [.addFile (.map (.cons 0 (.map (.cons 5 (.scalar 2) .nil)) .nil)), .setLanguage none, .setOverride 5 (some (.scalar 1))] := by
   rfl
+-- deep union is not associative across a type change: combining two files FIRST and merging the result is not merging
+-- them one after the other (built-in map at key 1; file 1 sets it to a scalar, file 2 to a map)
+example : mergeInto (mergeInto (.cons 1 (.map (.cons 7 (.scalar 0) .nil)) .nil) (.cons 1 (.scalar 9) .nil))
+      (.cons 1 (.map (.cons 8 (.scalar 1) .nil)) .nil)
+    ≠ mergeInto (.cons 1 (.map (.cons 7 (.scalar 0) .nil)) .nil)
+      (mergeInto (mergeInto (.nil : M Nat Nat) (.cons 1 (.scalar 9) .nil)) (.cons 1 (.map (.cons 8 (.scalar 1) .nil)) .nil)) := by
+  decide
 -- C++: `c++17-pmr` rewrites `std` and sets the allocator as a unit, other options stay
 example : (match applyStdDefaults Gen.stdKey Gen.nameKey Gen.cppDefaults
       (.cons "std" (.scalar "s:c++17-pmr") (.cons "allocator_type" (.scalar "s:mine") (.cons "x" (.scalar "i:1") .nil))) with
